@@ -26,6 +26,8 @@ func c11OrderRun(e *Env) {
 	replacements := t.Choose(3)
 	burst := 2 + t.Choose(3)
 	lateBurst := t.Chance(1, 2)
+	overtake := t.Chance(1, 4)
+	overtaken := false
 	e.NoAutoRacy = true // the scenario keeps the queue empty whenever a replaced loop comes back (one ready select case)
 
 	type inMsg struct {
@@ -165,7 +167,16 @@ func c11OrderRun(e *Env) {
 		e.Wait()
 		w.Pump()
 		e.Probe("order.loopReplacedBefore")
-		if lateBurst && r == replacements-1 && len(e.Parked()) == 1 {
+		if overtake && r == replacements-1 && len(e.Parked()) == 1 {
+			// the replaced loop has taken `first` from the queue and has not called its handler yet; the new loop is free
+			// to dispatch whatever arrives now - nothing tells TryToReplaceLoop that its caller is no handler
+			second := deliver()
+			e.Probe("order.messageArrivesWhileReplacedLoopHoldsAnEarlierOne")
+			if entered(second) > 0 && entered(first) == 0 {
+				overtaken = true
+				e.Violate("C11.R3", "dispatch-out-of-arrival-order:loop-replaced-by-application-request", "message n=%d arrived after n=%d and reached its handler first: a request of an application goroutine replaced the reader loop while that loop was about to call the handler of n=%d, and the new loop dispatched n=%d at once (no handler ever blocked)", second.n, first.n, first.n, second.n)
+			}
+		} else if lateBurst && r == replacements-1 && len(e.Parked()) == 1 {
 			// the replaced loop comes back from its handler while messages are waiting: it has been replaced, they
 			// are the new loop's. The new loop sits between queue and handler with the second message, the third
 			// one is still in the queue.
@@ -223,7 +234,7 @@ func c11OrderRun(e *Env) {
 			e.Violate("C11.R1", "message-never-dispatched", "message n=%d never reached the handler although the connection stayed open", in.n)
 		case in.entered > 1:
 			e.Violate("C11.R2", "message-dispatched-twice", "message n=%d was handed to the handler %d times", in.n, in.entered)
-		case in.seq < last:
+		case in.seq < last && !overtaken: // (reported above, once)
 			e.Violate("C11.R3", "dispatch-out-of-arrival-order", "message n=%d was dispatched before a message that arrived earlier (no handler ever blocked)", in.n)
 		}
 		if in.seq > last {
